@@ -54,6 +54,7 @@ def env_for_worker(seed, params):
     e['ASAN_OPTIONS'] = ASAN_OPTIONS
     e['UBSAN_OPTIONS'] = UBSAN_OPTIONS
     e['TSAN_OPTIONS'] = TSAN_OPTIONS
+    seed = abs(int(seed)) % (1 << 62)  # any VERIF_SEED value is acceptable
     rc = 'seed=%d' % (seed if seed != 0 else 1)
     for k in ('max_success', 'max_size', 'max_discard_ratio'):
         if k in params:
